@@ -1214,10 +1214,38 @@ func (b *broker) subEventHistory(msg *wamp.Invocation) wamp.Message {
 			if storeItem, ok := b.eventHistoryStore[subscription]; ok {
 				isLimitReached = storeItem.atLimit()
 
-				var untilPubReached bool
+				var fromPubReached, afterPubReached, untilPubReached bool
 
 				for i := 0; i < storeItem.entries.Len(); i++ {
 					entry := storeItem.entries.At(i)
+
+					// The publication bounds are positions in the history,
+					// so they are evaluated for every entry, whatever the
+					// other filters say about it.
+					if beforePub > 0 && entry.event.Publication == beforePub {
+						break
+					}
+					if untilPub > 0 {
+						// The specified event is included, if it passes the
+						// remaining filters; the scan stops on the next turn.
+						if untilPubReached {
+							break
+						}
+						if entry.event.Publication == untilPub {
+							untilPubReached = true
+						}
+					}
+					if fromPub != 0 && entry.event.Publication == fromPub {
+						fromPubReached = true
+					}
+					skip := (fromPub != 0 && !fromPubReached) || (afterPub != 0 && !afterPubReached)
+					if afterPub != 0 && entry.event.Publication == afterPub {
+						afterPubReached = true
+					}
+					if skip {
+						continue
+					}
+
 					if !fromDate.IsZero() && entry.event.timestamp.Before(fromDate) {
 						continue
 					}
@@ -1229,33 +1257,6 @@ func (b *broker) subEventHistory(msg *wamp.Invocation) wamp.Message {
 					}
 					if !untilDate.IsZero() && entry.event.timestamp.After(untilDate) {
 						continue
-					}
-					if fromPub != 0 {
-						if entry.event.Publication != fromPub {
-							continue
-						}
-						fromPub = 0
-					}
-					if afterPub != 0 {
-						if entry.event.Publication == afterPub {
-							afterPub = 0
-						}
-						continue
-					}
-					if beforePub > 0 && entry.event.Publication == beforePub {
-						break
-					}
-					if untilPub > 0 {
-						// We need to include specified event, but also we need
-						// to check it against remaining filters, so we rise up
-						// untilPubReached flag and break the cycle on next
-						// turn
-						if untilPubReached {
-							break
-						}
-						if entry.event.Publication == untilPub {
-							untilPubReached = true
-						}
 					}
 
 					// Compare with the topic of the publication itself: events
